@@ -1461,6 +1461,48 @@ func (e *c34Env) analyse(fam, format string, s *PkgSpec, data []byte, res *c34Re
 		}
 		if ct, err := c34Gunzip(p.ControlRaw, true); err == nil {
 			tarModel("control", ct, p.Control)
+			// the control archive as ipk.populateControlTar assembles it (ipk_scripts_in_control_archive)
+			if plan, perr := RealPlan(s, "ipk"); perr == nil && len(ct) <= e.segCap/4 {
+				var confs []string
+				for _, pc := range plan {
+					if pc.Type == "config" || pc.Type == "config|noreplace" || pc.Type == "config|missingok" {
+						confs = append(confs, pc.Dst)
+					}
+				}
+				ctrlB, _ := p.ControlFile("control")
+				mt := int64(-1)
+				for _, cm := range p.Control {
+					mt = cm.MTime
+					break
+				}
+				slots := [][2]string{{"preinst", info.Scripts.PreInstall}, {"postinst", info.Scripts.PostInstall}, {"prerm", info.Scripts.PreRemove}, {"postrm", info.Scripts.PostRemove}}
+				var sc strings.Builder
+				n, readable := 0, true
+				for _, sl := range slots {
+					if sl[1] == "" {
+						continue
+					}
+					body, rerr := os.ReadFile(sl[1])
+					if rerr != nil {
+						readable = false
+						break
+					}
+					n++
+					fmt.Fprintf(&sc, " %s %s", wire.H(sl[0]), wire.H(string(body)))
+				}
+				if readable && mt >= 0 && (s.MTime == wire.ZeroTime || s.MTime == mt) {
+					res.Checks = append(res.Checks, "ipkcontroltar")
+					res.TarBy["ipk:control:assembly-compared"]++
+					ask(fmt.Sprintf("ipkcontroltar %d %s %s %d%s", mt, wire.H(string(ctrlB)), wire.H(strings.Join(confs, "\n")+"\n"), n, sc.String()), func(ans string) {
+						got, _ := wire.UnH(ans)
+						if got != string(ct) {
+							res.f04("ipk:control-archive-differs-from-model", "the control archive is not what the model of ipk.populateControlTar assembles from the control text, the planned config files and the configured script files (member set, order, names, modes, times or bodies differ): "+c34FirstDiff(got, string(ct)))
+						}
+					})
+				} else if s.MTime != wire.ZeroTime && s.MTime != mt && mt >= 0 {
+					res.f04("ipk:control-archive-mtime", fmt.Sprintf("the members of the control archive carry mtime %d, the configured package mtime is %d", mt, s.MTime))
+				}
+			}
 		}
 		res.tarFacts("outer", p.OuterFacts, true)
 		res.tarFacts("data", p.DataFacts, true)
